@@ -4,6 +4,7 @@ use super::Ctx;
 use crate::dice::Dice;
 use crate::ev::{self, Evidence, Report, Violation};
 use crate::ggen::{self, Profile};
+use crate::gm::{Grammar, Regex};
 use crate::lw;
 use crate::prop;
 use crate::textgen::{self, LexKind};
@@ -187,10 +188,52 @@ pub fn profiles() -> Vec<Profile> {
     ]
 }
 
+/// long identifiers: lines reach the formatter's width limit (100 columns) without any line
+/// break in the source, so that the printer itself has to decide where to break
+fn lengthen(g: &mut Grammar, d: &mut Dice<'_>) {
+    const RULE_PAD: &[&str] = &["_statement_list", "_expression_with_a_long_name", "_declaration", "_x"];
+    const TOK_PAD: &[&str] = &["KeywordWithLongName", "Identifier", "PunctuationMark", "X"];
+    let old: Vec<String> = g.rules.iter().map(|r| r.name.clone()).collect();
+    for (i, r) in g.rules.iter_mut().enumerate() {
+        r.name = format!("{}{}", r.name, RULE_PAD[d.below(RULE_PAD.len())]);
+        let _ = i;
+    }
+    // node names that reuse a rule name follow the rule
+    fn fix(r: &mut Regex, old: &[String], new: &[String]) {
+        match r {
+            Regex::Rename(n) | Regex::Create(_, Some(n)) => {
+                if let Some(k) = old.iter().position(|o| o == n) {
+                    *n = new[k].clone();
+                }
+            }
+            _ => {}
+        }
+        for c in r.children_mut() {
+            fix(c, old, new);
+        }
+    }
+    let new: Vec<String> = g.rules.iter().map(|r| r.name.clone()).collect();
+    for r in g.rules.iter_mut() {
+        if let Some(b) = r.body.as_mut() {
+            fix(b, &old, &new);
+        }
+    }
+    for t in g.tokens.iter_mut() {
+        let pad = TOK_PAD[d.below(TOK_PAD.len())];
+        t.name = format!("{}{}", t.name, pad);
+        if let Some(s) = t.symbol.as_mut() {
+            *s = format!("{s}_{}", pad.to_lowercase());
+        }
+    }
+}
+
 pub fn valid_text(stream: &[u32], prof: &Profile) -> String {
-    let g = ggen::build(prof, stream);
+    let mut g = ggen::build(prof, stream);
     let tail: Vec<u32> = stream.iter().rev().take(300).copied().collect();
     let mut d = Dice::new(&tail);
+    if d.chance(1, 4) {
+        lengthen(&mut g, &mut d);
+    }
     // half of the layouts keep comments out of the placements of known finding K9
     let plain = d.chance(1, 2);
     textgen::layout_with(&g, &mut d, true, plain).text
